@@ -466,6 +466,19 @@ class OffsetLocationRingTwoParts:
     known = OffsetLocationRing.__dict__["known"]
 
 
+@contract(f"{FILE}::offset_location", props=["C04", "C12"])
+class OffsetLocationRingThreeParts:
+    """the same contract for three-part locations (e.g. a three-exon gene over the origin whose exons touch: the
+    pieces are merged in a chain)"""
+    variant = True
+    tiers = ("thorough",)    # several minutes of solver time (three parts, each possibly split at the wrap point)
+    budget_s = 1800
+    params = {"location": CL(3, 3), "offset": Int, "wrap_point": Int}
+    requires = OffsetLocationRing.__dict__["requires"]
+    ensures = OffsetLocationRing.__dict__["ensures"]
+    known = OffsetLocationRing.__dict__["known"]
+
+
 # ---- distance between multi-part locations; reduction of parts --------------------------------------------
 @spec
 def d_parts(first, second, wrap_point):
